@@ -28,7 +28,11 @@ TRUSTED_BASE_COMMON = [
     "Coq 8.16.1 kernel (coqc); vm_compute and the kernel's Uint63 primitives for evaluating the model in the "
     "correspondence check and for the finite computations named in DESIGN.md section 6; no native_compute",
     "no axiom declared by the development; Print Assumptions of every property theorem is checked on every run "
-    "(allowed: none, or the kernel's primitive-integer constants)",
+    "(allowed: none, or the kernel's primitive-integer constants PrimInt63.*); the thorough tier also runs coqchk -o on "
+    "the cone, which for cones loading Uint63/Bignums additionally lists the standard library's own Uint63 specification "
+    "axioms (Uint63.of_to_Z, *_spec, eqb_correct, eqb_refl) — used by Bignums' proofs, by no proof of this development",
+    "a textual scan of every .v file on every run: no Axiom/Parameter/Conjecture/Admitted/admit, no Variable/Hypothesis outside "
+    "a Section, no disabled guard/positivity/universe checks",
     "the model is hand-written: its tie to /repo is this run's correspondence check (Python generators and "
     "comparators in vp/, the Rust harness in harness/, coqc evaluating the model on the same inputs)",
     "dependencies of hdwallet (sha2, sha3, hmac, pbkdf2, k256, rfc6979, unicode-normalization, serde_json, ethnum, "
@@ -248,6 +252,7 @@ def write_evidence(prop, tier, seed, ctx, pr, nviol, timer):
         statements=(pr or {}).get("stmts", {}),
         print_assumptions={k: (v if v else "Closed under the global context") for k, v in ((pr or {}).get("assumptions", {}) or {}).items()},
         proof_problems=(pr or {}).get("problems", []),
+        coqchk_axioms=(pr or {}).get("coqchk_axioms", "coqchk runs in the thorough tier only"),
         evaluations=ctx.evaluations if ctx else 0,
         distinct_nontrivial=len(ctx.nontrivial) if ctx else 0,
         rule=rule,
